@@ -12,7 +12,7 @@ BED = 200.0
 
 OTHER_CODES = ["M117 layer %d", "M204 P%d T1000", "M204 S%d", "M205 X%d", "M73 P%d R10", "G4 P%d",
                "M106 S%d", "M104 S%d", "M105", "T0", "M220 S%d", "M400", "M9999 X%d", "M117 hello world",
-               "M73 P%d", "M205 J0.0%d", "G29"]
+               "M73 P%d", "M205 J0.0%d", "G29", "M862.1 P0.4", "M80.1", "G38.3 F%d", "M862.3 P1"]
 AT_NOOP = ["@ExcludeRegion status", "@ExcludeRegion", "@foo bar", "@ExcludeRegion enabled-ish",
            "@excluderegion disable", "@ExcludeRegionX disable", "@pausex", "@ExcludeRegion  xdisable"]
 TERMINAL = ["M105", "M114", "M117 from terminal", "M106 S0", "M155 S2", "M73 P1"]
@@ -189,7 +189,7 @@ class G(object):
             tx, ty = {"into": self.point_in, "border": self.point_border, "beside": self.point_beside}[aim](reg)
         if axes is None:
             axes = r.choices(["XY", "X", "Y", "XYZ", "Z"], k.get("axes_w", [60, 10, 10, 10, 10]))[0]
-        if not k.get("clear_path") and aim == "far":
+        if aim == "far":
             # special values: exactly 0 (a zero-valued word), the current coordinate (a zero offset in
             # relative mode), small round numbers whose relative sums leave float residue
             sp = r.random()
@@ -200,6 +200,13 @@ class G(object):
                 ty = r.choice([0.0, self.y, 0.1, 0.2, 0.3])
             elif sp < 2.3 * p_special:
                 tx, ty = 0.0, 0.0
+            if k.get("huge") and r.random() < k["huge"]:
+                if r.random() < 0.5:
+                    tx = r.choice([1e16, 3e18, 2e20, -4e17])
+                else:
+                    ty = r.choice([1e16, 3e18, 2e20, -4e17])
+            if k.get("clear_path") and self.inside_margin(tx, ty, k.get("clear_margin", 0.05)):
+                tx, ty = self.point_far()
         nx, ny, nz = self.x, self.y, self.z
         op = {"op": "move"}
         if "X" in axes:
@@ -266,6 +273,8 @@ class G(object):
             return
         if k.get("clear_path") and best > -max(0.05, k.get("clear_margin", 0.05)):
             return
+        if k.get("arc_margin") and (-0.5 < best < 1.0 or sweep > 2 * math.pi - 0.3):
+            return     # C08: no shallow arcs and no (nearly) closed ones, whose sweep hangs on the last bit
         op = {"op": "arc", "cw": cw, "ci": ci, "cj": cj, "sweep": sweep}
         if r.random() < 0.15:
             self.z = max(0.1, r2(self.z + r.choice([0.2, -0.2, 1.0]), 2))
@@ -431,6 +440,16 @@ class G(object):
             self.ep = False   # after re-enabling, the next *move* decides
             if self.k.get("after_enable_moves"):
                 self.after_enable = r.randrange(1, 4)
+        if r.random() < self.k.get("p_foreign_at", 0.0):
+            # a command that belongs to a configuration which is *not* in effect (renamed / removed action, or a
+            # parameter that merely contains the trigger word): must change nothing -- undo the bookkeeping above
+            self.enabled = not self.enabled if not redundant else self.enabled
+            foreign = {None: ["@Excl stop", "@RegionsOff", "@Excl go", "@RegionsOn"],
+                       "only": ["@ExcludeRegion disable", "@ExcludeRegion enable", "@ExcludeRegion off"],
+                       "both": ["@Excl stopping", "@Excl2 off"]}[custom if custom in ("only", "both") else None]
+            foreign += ["@Excl2 keep region 2 off limits", "@Excl2 part one done", "@Excl xgo", "@Excl please stop"]
+            self.ops.append({"op": "line", "text": r.choice(foreign)})
+            return
         self.ops.append({"op": "line", "text": r.choice(pool)})
 
     def settings_change(self):
@@ -446,8 +465,27 @@ class G(object):
         elif what == "exit":
             st["exitingExcludedRegionGcode"] = rand_script(r, "EXIT")
         else:
-            st["clearRegionsAfterPrintFinishes"] = False
-        self.ops.append({"op": "settings", "set": st, "needs_no_episode": True})
+            self.k["clear_after"] = r.random() < 0.5
+            st["clearRegionsAfterPrintFinishes"] = self.k["clear_after"]
+        op = {"op": "settings", "set": st}
+        if not self.k.get("settings_anytime"):
+            op["needs_no_episode"] = True
+        self.ops.append(op)
+
+    def at_config_change(self):
+        """The configured @-actions change mid-run (renamed / removed commands must stop working)."""
+        r = self.r
+        from .worlds.printworld import DEFAULT_AT_ACTIONS
+        which = r.choice([None, "only", "both"])
+        if which is None:
+            acts = list(DEFAULT_AT_ACTIONS)
+        elif which == "only":
+            acts = list(CUSTOM_AT)
+        else:
+            acts = list(CUSTOM_AT) + list(DEFAULT_AT_ACTIONS)
+            r.shuffle(acts)
+        self.k["custom_at"] = which
+        self.ops.append({"op": "settings", "set": {"atCommandActions": acts}})
 
     def misc(self, kind):
         r = self.r
@@ -462,6 +500,8 @@ class G(object):
             self.emit(op="line", text=t)
         elif kind == "settings_change":
             self.settings_change()
+        elif kind == "at_config":
+            self.at_config_change()
         elif kind == "script_hook":
             self.emit(op="script_hook", name=r.choice(["beforePrintStarted", "afterPrintCancelled",
                       "afterPrintPaused", "beforePrintResumed", "afterPrinterConnected", "snippets/foo",
@@ -566,7 +606,7 @@ class G(object):
                       repeat_hook=(r.choice([0, 0, 1, 2]) if k.get("hook_repeats") else 0),
                       deliver_before_pump=(r.random() < 0.5))
         else:
-            self.emit(op="abort", kind=r.choice(["cancel", "cancel", "error", "fail"]))
+            self.emit(op="abort", kind=r.choice(["cancel", "cancel", "error", "fail", "error_only"]))
         self.active = False
         self.ep = False
         if k.get("clear_after"):
@@ -580,7 +620,7 @@ class G(object):
 BASE_W = {"move": 55, "arc": 0, "retract": 10, "region_add": 3, "region_grow": 1.5, "region_shrink": 1,
           "region_refused": 1, "other": 8, "at_noop": 1.5, "terminal": 2, "pump": 1, "clock": 1, "logfail": 0.5,
           "pause": 0.7, "api_get": 0.5, "settings_same": 0.5, "g92e": 2, "mode": 0, "units": 0, "g92xyz": 0,
-          "at_switch": 0, "sd_stream_at": 0, "settings_change": 0, "script_hook": 0}
+          "at_switch": 0, "sd_stream_at": 0, "settings_change": 0, "script_hook": 0, "at_config": 0}
 
 
 MERGE_CODES = ["M204", "M205", "M73", "M900", "M220", "M221"]
@@ -640,6 +680,8 @@ CUSTOM_AT = [
     {"command": "Excl", "parameterPattern": "^go", "action": "enable_exclusion", "description": "sim"},
     {"command": "RegionsOff", "parameterPattern": None, "action": "disable_exclusion", "description": "sim"},
     {"command": "RegionsOn", "parameterPattern": "", "action": "enable_exclusion", "description": "sim"},
+    {"command": "Excl2", "parameterPattern": "off", "action": "disable_exclusion", "description": "sim"},
+    {"command": "Excl2", "parameterPattern": "on", "action": "enable_exclusion", "description": "sim"},
 ]
 
 
@@ -650,6 +692,8 @@ def knobs(rng, profile):
     k["log"] = rng.choice(["off", "off", "info", "debug"])
     k["g90e"] = rng.random() < 0.3
     k["keep_zeros"] = rng.random() < 0.3
+    k["numstyle"] = rng.choice([None, None, None, "noleadzero", "plus", "traildot", "mixed"])
+    k["compact"] = rng.random() < 0.12
     k["prints"] = rng.choice([1, 1, 2, 3])
     k["nregions"] = rng.choice([0, 1, 1, 2, 3])
     k["retract"] = rng.choice(["e", "e", "fw", None])
@@ -687,7 +731,7 @@ def gen_print_schedule(rng, profile, k=None, return_gen=False, regions=None, nid
     if k["may_shrink"]:
         settings["mayShrinkRegionsWhilePrinting"] = True
     cfg = {"log": k["log"], "g90e": k["g90e"], "keep_zeros": k["keep_zeros"], "settings": settings,
-           "profile": profile}
+           "profile": profile, "numstyle": k["numstyle"], "compact": k["compact"]}
     for pi in range(k["prints"]):
         if pi == 0 or rng.random() < 0.3:
             for _ in range(k["nregions"] if pi == 0 else rng.choice([0, 1])):
@@ -695,6 +739,8 @@ def gen_print_schedule(rng, profile, k=None, return_gen=False, regions=None, nid
         g.prologue()
         g.body(k["nops"])
         g.end_print()
+        if k.get("between_settings") and rng.random() < k["between_settings"]:
+            g.settings_change()      # settings saved while idle, between two jobs
     if return_gen:
         return cfg, g.ops, g
     return cfg, g.ops
